@@ -17,11 +17,17 @@ ALL_GATES = SINGLE + MULTI
 INPUT_NAMES = ["a", "b", "c", "d", "e", "f"]
 
 
-def build(desc, cg=None):
+def build(desc, cg=None, order=None):
+    """order: None (desc order), "rev" (reverse insertion order) or a list of indices."""
     if cg is None:
         import circuitgraph as cg
     c = cg.Circuit(name=desc.get("name", "top"))
-    for name, t, _fi, out in desc["nodes"]:
+    nodes = desc["nodes"]
+    if order == "rev":
+        nodes = list(reversed(nodes))
+    elif order:
+        nodes = [desc["nodes"][i] for i in order]
+    for name, t, _fi, out in nodes:
         c.add(name, t, output=bool(out))
     for name, _t, fi, _out in desc["nodes"]:
         for f in fi:
